@@ -517,7 +517,8 @@ func (s *Statement) ConvertAllAllocatedToPipelined(jobID common_info.PodGroupID)
 		allocateOp := op.(allocateOperation)
 
 		nodeName := currentTaskInOperations.NodeName
-		err := s.unallocate(currentTaskInOperations, allocateOp.nextNode, true)
+		// the operation keeps the task as it was cloned by Allocate, i.e. with the virtual-status flag it had before
+		err := s.unallocate(currentTaskInOperations, allocateOp.nextNode, currentTaskInOperations.IsVirtualStatus)
 		if err != nil {
 			return err
 		}
